@@ -22,7 +22,7 @@ ASSUMPTIONS = (
     "all operands of one dimension slot carry the same unit (A->m, B->s, 1->dimensionless; further families: all dimensionless, A->K; thorough adds g/km, kg*m/s**2 and 1/s, degC, and 0-d operands as unyt_array instead of unyt_quantity), so no conversion factor is involved",
     "values are compared with NaN equal to NaN and -0.0 equal to 0.0; dtype must agree in kind, kinds being bool / integer (signed or unsigned) / float / complex as in the quantifier (exact dtype differences are notes)",
     "the statement demands the same dtype kind, not width: where a float narrower than float64 is involved (float32 data, or result widths differ) unyt may carry intermediate steps in a wider float; values are then compared to within 64 eps of the narrowest float involved times the largest magnitude among operands and results; float64/complex128/integer cases are compared exactly",
-    "integer out= / in-place targets and integer operands combined with a bare (unit-less, hence differently-united) operand are promoted to float by unyt's documented no-integer-truncation policy (C17): i->f with equal values is a note, not a violation; only for templates with out=, mutators and one-operand-bare forms",
+    "integer out= / in-place targets and integer operands combined with a bare (unit-less, hence differently-united) operand are promoted to float by unyt's documented no-integer-truncation policy (C17): i->f with equal values is a note, not a violation; only for templates with out=, mutators and one-operand-bare forms; there, a float result that equals NumPy's integer result modulo 2**bits (NumPy wrapped around, e.g. uint8 0 - 8 = 248 vs -8.0) is the same computation without the wrap-around and is a note as well",
     "a difference that NumPy itself shows between a plain ndarray and a unit-less ndarray subclass (e.g. nanmin/nanmax skip the fmin.reduce fast path for subclasses) is NumPy's, not unyt's: excused when unyt agrees with NumPy run on a trivial subclass view, and noted",
     "np.array_equal/array_equiv with one bare operand answer False by design (a bare array is dimensionless, not metres): that form is not generated",
     "a tuple returned where NumPy returns a namedtuple/list of the same length is the same nesting (sequence-ness is compared, not the class); recorded as note",
@@ -118,6 +118,17 @@ def compare(u, b, strict_text, notes, path="r", promo_ok=False, narrow=None):
                 notes.add("integer-target-or-mixed-operand-promoted-to-float")
             else:
                 return ("dtype-kind", path, f"dtype {ua.dtype} vs NumPy {ba.dtype}")
+        if promo_ok and ba.dtype.kind in "iu" and ua.dtype.kind == "f" and ua.shape == ba.shape:
+            # NumPy's integer arithmetic wraps around (uint8 0 - 8 = 248) where the promoted float computation does not
+            # (-8.0): equal modulo 2**bits is the same computation without the wrap-around; C17 demands the promotion
+            with np.errstate(all="ignore"):
+                uf = np.asarray(ua, dtype="f8")
+                wrapped = bool(np.all(np.isfinite(uf)) and np.all(uf == np.rint(uf)) and
+                               not np.array_equal(uf, ba.astype("f8")) and
+                               np.all(np.mod(uf - ba.astype("f8"), float(2 ** (8 * ba.dtype.itemsize))) == 0))
+            if wrapped:
+                notes.add("numpy-integer-wraparound-avoided-by-float-promotion")
+                return None
         if ua.dtype != ba.dtype:
             notes.add(f"dtype-width:{ua.dtype}!={ba.dtype}")
             if narrow is None and ua.dtype.kind in "fc" and ba.dtype.kind in "fc" and min(_eps_of(ua.dtype), _eps_of(ba.dtype)) < max(_eps_of(ua.dtype), _eps_of(ba.dtype)):
